@@ -76,7 +76,10 @@ def make_scenario(rnd, counts, nues_choices=None, fault=None, opts=None):
     gtp = [rnd.choice([10, 192, 172]), rnd.randrange(256), rnd.choice([0, 255, rnd.randrange(256)]), rnd.randrange(1, 255)]
     sst = rnd.choice([1, 2, 3, 128])
     sd = [rnd.randrange(256) for _ in range(3)]
-    cfg = {"mcc": ascii_ints(mcc), "mnc": ascii_ints(mnc), "imsi": ascii_ints(imsi), "k": k, "op": op, "opc": opc,
+    amf_ip = "%d.%d.%d.%d" % (rnd.choice([10, 127, 192]), rnd.randrange(256), rnd.randrange(256), rnd.randrange(1, 255))
+    stg_ip = "%d.%d.%d.%d" % (rnd.choice([10, 127, 192]), rnd.randrange(256), rnd.randrange(256), rnd.randrange(1, 255))
+    amf_port, stg_port = rnd.choice([0, 1, 38412, 65535, rnd.randrange(65536)]), rnd.choice([0, 9487, 65535, rnd.randrange(65536)])
+    cfg = {"amfIp": amf_ip, "amfPort": amf_port, "stgIp": stg_ip, "stgPort": stg_port, "mcc": ascii_ints(mcc), "mnc": ascii_ints(mnc), "imsi": ascii_ints(imsi), "k": k, "op": op, "opc": opc,
            "gnbId": gid, "gnbBits": bits, "gnbName": ascii_ints(name), "gtpIp": gtp, "sst": sst, "sd": sd, "counts": counts}
     ues = []
     amf_ids = [0, 1, 255, 256, 65535, 65536, (1 << 32) - 1, 1 << 32, (1 << 40) - 1]
@@ -111,8 +114,8 @@ def make_scenario(rnd, counts, nues_choices=None, fault=None, opts=None):
 
 def write_config(path, scn, text, extra=None):
     c = scn["cfg"]["counts"]
-    kv = [("amf_ngap_ip", "127.0.0.1"), ("amf_ngap_port", 38412), ("gnb_gtp_ip", yaml_str(text["gtp"])),
-          ("stg_ngap_ip", "127.0.0.1"), ("stg_ngap_port", 9487), ("initial_imsi", yaml_str(text["imsi"])),
+    kv = [("amf_ngap_ip", yaml_str(scn["cfg"]["amfIp"])), ("amf_ngap_port", scn["cfg"]["amfPort"]), ("gnb_gtp_ip", yaml_str(text["gtp"])),
+          ("stg_ngap_ip", yaml_str(scn["cfg"]["stgIp"])), ("stg_ngap_port", scn["cfg"]["stgPort"]), ("initial_imsi", yaml_str(text["imsi"])),
           ("mcc", yaml_str(text["mcc"])), ("mnc", yaml_str(text["mnc"])), ("gnb_id", yaml_str(text["gid"])),
           ("gnb_bitlength", scn["cfg"]["gnbBits"]), ("gnb_name", yaml_str(text["name"])), ("k", yaml_str(text["k"])),
           ("opc", yaml_str(text["opc"])), ("op", yaml_str(text["op"])), ("sst", scn["cfg"]["sst"]), ("sd", yaml_str(text["sd"])),
